@@ -398,6 +398,41 @@ func (r *Run) pick() *thread {
 	return opts[c]
 }
 
+// choose records an n-way data choice of the running thread in the schedule
+// (same choice list as the thread choices, so replay and exploration treat it
+// alike). Option 0 is the default; the others cost one deviation.
+func (r *Run) choose(n int) int {
+	if r.aborting || r.cur == nil || n <= 1 {
+		return 0
+	}
+	i := len(r.choices)
+	if i >= r.horizon {
+		return 0
+	}
+	sig := uint32(0x9e3779b9) ^ uint32(n*131+r.cur.id)
+	c := 0
+	if i < len(r.prefix) {
+		c = r.prefix[i]
+		if r.expect != nil && i < len(r.expect) && r.expect[i] != sig {
+			r.fatal = fmt.Sprintf("vsched: NONDETERMINISM: replay of prefix diverged at point %d (a select had a different set of ready cases); prefix=%v", i, r.prefix)
+			c = 0
+		} else if c < 0 || c >= n {
+			r.fatal = fmt.Sprintf("vsched: choice %d out of range at select choice point %d (%d ready cases); prefix=%v", c, i, n, r.prefix)
+			c = 0
+		}
+	}
+	r.choices = append(r.choices, c)
+	r.sigs = append(r.sigs, sig)
+	r.nopts = append(r.nopts, int32(n))
+	r.pre = append(r.pre, int32(r.preempts))
+	r.runEn = append(r.runEn, true)
+	r.who = append(r.who, int32(r.cur.id))
+	if c > 0 {
+		r.preempts++
+	}
+	return c
+}
+
 func (r *Run) blockedDesc() string {
 	var b []string
 	for _, t := range r.threads {
